@@ -80,7 +80,7 @@ impl TimeProvider for Clock {
 }
 
 /// key id -> (key size, table index)
-const KEYS: [(usize, Option<u8>); 3] = [(1, Some(0)), (2, Some(1)), (1, None)];
+const KEYS: [(usize, Option<u8>); 4] = [(1, Some(0)), (2, Some(1)), (1, None), (3, Some(0))];
 const VSIZES: [usize; 4] = [0, 1, 3, 5];
 const LIMITS: [usize; 4] = [0, 4, 8, 20];
 const INITIAL_LIMIT: usize = 8;
@@ -108,20 +108,21 @@ enum Op {
     Clear,
 }
 
-fn alphabet() -> Vec<Op> {
+/// `nkeys` = 3 in the quick tier, 4 in the thorough tier
+fn alphabet(nkeys: u8) -> Vec<Op> {
     let mut v = vec![];
-    for k in 0..KEYS.len() as u8 {
+    for k in 0..nkeys {
         for s in VSIZES {
             v.push(Op::Put { k, v: s });
         }
     }
-    for k in 0..KEYS.len() as u8 {
+    for k in 0..nkeys {
         v.push(Op::Get { k });
     }
-    for k in 0..KEYS.len() as u8 {
+    for k in 0..nkeys {
         v.push(Op::Contains { k });
     }
-    for k in 0..KEYS.len() as u8 {
+    for k in 0..nkeys {
         v.push(Op::Remove { k });
     }
     for l in LIMITS {
@@ -329,7 +330,7 @@ fn run_cache(ops: &[Op], all_steps: bool, mut trace: Option<&mut Vec<String>>) -
                         info.expirations += 1;
                         false
                     }
-                    Some(_) => true,
+                    Some(p) => { let e = m.entries.remove(p); m.entries.push(e); true }
                 };
                 if got != exp {
                     return Err(format!("contains_key returned {got}, expected {exp}"));
@@ -511,12 +512,15 @@ fn run_queue(ops: &[QOp]) -> Result<Vec<u8>, String> {
 // ---------------------------------------------------------------- exploration
 
 fn explore(ctx: &Ctx) {
-    let depth = std::env::var("VERIF_C40_DEPTH").ok().and_then(|s| s.parse().ok()).unwrap_or(ctx.pick(6, 8));
+    // quick: 3 keys, explored until no new state appears (the reachable state space closes at depth 11);
+    // thorough: 4 keys, same rule with a larger depth cap
+    let nkeys: u8 = std::env::var("VERIF_C40_KEYS").ok().and_then(|s| s.parse().ok()).unwrap_or(ctx.pick(3, 4));
+    let depth = std::env::var("VERIF_C40_DEPTH").ok().and_then(|s| s.parse().ok()).unwrap_or(ctx.pick(14, 24));
     let qdepth = ctx.pick(8, 12);
     ctx.set_extra(
         "bounds",
-        json!({"max_depth": depth, "keys (size, table)": KEYS, "value_sizes": VSIZES, "limits": LIMITS, "initial_limit": INITIAL_LIMIT,
-               "ttl_seconds": [Value::Null, json!(TTL)], "clock_advance": [1, 3], "alphabet_size": alphabet().len(),
+        json!({"max_depth": depth, "keys (size, table)": &KEYS[..nkeys as usize], "value_sizes": VSIZES, "limits": LIMITS, "initial_limit": INITIAL_LIMIT,
+               "ttl_seconds": [Value::Null, json!(TTL)], "clock_advance": [1, 3], "alphabet_size": alphabet(nkeys).len(),
                "lru_queue": {"keys": QKEYS, "max_depth": qdepth, "alphabet_size": q_alphabet().len()}}),
     );
     ctx.assume("state de-duplication: canonical key = (limit, ttl, entries in recency order with value size and remaining lifetime); the put-step tag carried by a value and the absolute clock are not part of the key");
@@ -527,7 +531,7 @@ fn explore(ctx: &Ctx) {
     let hits = AtomicU64::new(0);
 
     // --- DefaultCache
-    let ops = alphabet();
+    let ops = alphabet(nkeys);
     let mut on_state = |h: &[Op], k: &Vec<u8>| {
         // non-trivial: at least two entries, or an entry with a TTL stamp
         let n = k[2] as usize;
@@ -640,8 +644,8 @@ fn main() {
         "C40",
         Level::ModelChecking,
         "breadth-first over all histories (depth bound) of put/get/contains_key/remove/update_cache_limit/update_cache_ttl/clock advance/drop_table_entries/clear \
-         on the real DefaultCache (3 keys of sizes 1,2,1 in tables t0,t1,none; value sizes 0,1,3,5; limits 0,4,8,20; TTL none|2 s; mock clock) in lock step with a reference LRU, \
-         one transition = one history executed on a fresh cache, states de-duplicated by the canonical reference state; plus all histories of the public LruQueue over 4 keys; \
+         on the real DefaultCache (3 keys of sizes 1,2,1 in tables t0,t1,none, thorough tier: a 4th key of size 3 in t0; value sizes 0,1,3,5; limits 0,4,8,20; TTL none|2 s; mock clock) in lock step with a reference LRU, \
+         one transition = one history executed on a fresh cache, states de-duplicated by the canonical reference state, explored until no new state appears; plus all histories of the public LruQueue over 4 keys; \
          non-trivial = distinct states with >= 2 entries or a TTL-stamped entry",
         explore,
         replay,
